@@ -534,7 +534,8 @@ func c17Dictionary(r *core.Run, idx int, rng *rand.Rand) {
 				continue
 			}
 			c17Judge(r, wl, idx, "dictionary", c17PostSkel, call.D, sc.S.ACS, relay, desc, call)
-			if call.D.Msg == nil || call.D.Msg.InResponseTo != sc.S.AuthRequestID {
+			// (a token of the library's source may hold characters XML cannot carry; those may come back replaced)
+			if call.D.Msg == nil || replaceIllegal(call.D.Msg.InResponseTo) != replaceIllegal(sc.S.AuthRequestID) {
 				r.Violate(core.Violation{Clause: "message_value", Class: "dictionary", Reason: "the SAMLResponse field does not hold this reply's message", Workload: wl, Index: idx, Case: desc, Observed: call.Describe()})
 			}
 		}
